@@ -274,9 +274,14 @@ def random_table_pair(rng, tok=None, max_rows=12, missing=0.1, dup_rate=0.2, ext
                 dtypes[c] = 'object'
         if extra and rng.random() < 0.5:
             rng.shuffle(cols)
-        ik = index_kind or rng.choice(['range', 'range', 'shuffled', 'str', 'offset'])
+        ik = index_kind or rng.choice(['range', 'range', 'shuffled', 'str', 'offset', 'dup', 'const'])
         if ik == 'range':
             index = None
+        elif ik == 'dup':       # concat-style: labels restart (non-unique index)
+            k = rng.randint(1, max(1, n))
+            index = [i % k for i in range(n)]
+        elif ik == 'const':
+            index = [0] * n
         elif ik == 'shuffled':
             index = list(range(n))
             rng.shuffle(index)
@@ -366,9 +371,14 @@ def random_candset(rng, L, R, l_key, r_key, size=None, with_missing_ok=True, ext
         cols.append('note')
         data['note'] = ['n%d' % rng.randint(0, 5) for _ in range(n)]
         dtypes['note'] = 'object'
-    ik = index_kind or rng.choice(['range', 'shuffled', 'str', 'offset'])
+    ik = index_kind or rng.choice(['range', 'shuffled', 'str', 'offset', 'dup', 'dup', 'const'])
     if ik == 'range' or n == 0:
         index = None
+    elif ik == 'dup':           # what pd.concat of per-job filter results looks like: labels restart
+        k = rng.randint(1, max(1, n // 2))
+        index = [i % k for i in range(n)]
+    elif ik == 'const':
+        index = [7] * n
     elif ik == 'shuffled':
         index = list(range(n))
         rng.shuffle(index)
@@ -379,3 +389,71 @@ def random_candset(rng, L, R, l_key, r_key, size=None, with_missing_ok=True, ext
     if n == 0:
         dtypes.update({'_id': 'int64', cols[1]: 'object', cols[2]: 'object'})
     return {'cols': cols, 'data': data, 'index': index, 'dtypes': dtypes}
+
+
+# ----------------------------------------------------------------------------- W2r random arrangements
+
+def random_arrangement_tables(rng, measure, threshold, n_groups=150, max_size=16, op='>='):
+    """Mid-size sets with the least qualifying overlap and a RANDOM interleaving of x-only / y-only /
+    shared tokens in the global order (realised like arrangement_tables: a filler row equalises all
+    token frequencies, the alphabetical tie-break fixes the ranks)."""
+    lrows, rrows, meta = [], [], []
+    gid = 0
+    tries = 0
+    while gid < n_groups and tries < n_groups * 20:
+        tries += 1
+        a, b = rng.randint(1, max_size), rng.randint(1, max_size)
+        o = model.min_required_overlap(measure, threshold, a, b, op)
+        if o is None:
+            continue
+        if rng.random() < 0.2:
+            o = min(min(a, b), o + 1)
+        items = ['X'] * (a - o) + ['Y'] * (b - o) + ['S'] * o
+        style = rng.random()
+        if style < 0.5:
+            rng.shuffle(items)
+        elif style < 0.65:
+            items.sort(key=lambda k: 'SXY'.index(k))          # shared first
+        elif style < 0.8:
+            items.sort(key=lambda k: 'XYS'.index(k))          # shared last
+        else:
+            # shared tokens spread evenly
+            rest = [k for k in items if k != 'S']
+            rng.shuffle(rest)
+            out, step = [], (len(rest) + 1.0) / (o + 1)
+            si = 0
+            for i, k in enumerate(rest):
+                while si < o and (si + 1) * step <= i + 1e-9:
+                    out.append('S')
+                    si += 1
+                out.append(k)
+            out.extend(['S'] * (o - si))
+            items = out
+        g = 'g%05d' % gid
+        names = ['%sp%03d' % (g, i) for i in range(len(items))]
+        x = [n for n, k in zip(names, items) if k in 'XS']
+        y = [n for n, k in zip(names, items) if k in 'YS']
+        fill = [n for n, k in zip(names, items) if k in 'XY']
+        rng.shuffle(x)
+        rng.shuffle(y)
+        lrows.append([2 * gid, ' '.join(x)])
+        rrows.append([gid, ' '.join(y)])
+        if fill:
+            lrows.append([2 * gid + 1, ' '.join(fill)])
+        meta.append((a, b, o, ''.join(items)))
+        gid += 1
+    L = T.table_spec(['id', 's'], lrows, dtypes={'s': 'object'})
+    R = T.table_spec(['id', 's'], rrows, dtypes={'s': 'object'})
+    return L, R, meta
+
+
+def spell(rng, measure):
+    """The filter constructors accept the measure name in any case."""
+    r = rng.random()
+    if r < 0.6:
+        return measure
+    if r < 0.8:
+        return measure.lower()
+    if r < 0.9:
+        return measure.title()
+    return ''.join(c.lower() if i % 2 else c for i, c in enumerate(measure))
